@@ -159,7 +159,7 @@ impl Prop for C09 {
         let mut units = corpus_units(
             &Space {
                 k: if thorough { 2 } else { 1 },
-                ctx_limit: if thorough { 99 } else { 2 },
+                ctx_limit: if thorough { 3 } else { 2 },
                 layouts: vec![Layout::L0, Layout::LAll],
                 style_editions: vec![2015],
                 cfg_mode: if thorough { CfgMode::Dev2 } else { CfgMode::Dev1Relevant },
@@ -171,6 +171,9 @@ impl Prop for C09 {
         );
         for u in units.iter_mut() {
             u.extra["corpus"] = json!("A");
+        }
+        if thorough {
+            units.retain(super::thorough_economy);
         }
         if !thorough {
             // quick: deviated configurations on the one-line layout only, deviated forms on LALL only
